@@ -13,15 +13,17 @@ def run(tier):
     base = dict(unwind=120, timeout_s=600 if tier == "quick" else 3000, summarise=SUM, max_witnesses=1, witness_every=1000,
                 panic_is_violation=True)
     for sys in (NPM, MAVEN, PYPI):
-        vts = [0, 1, 3] if sys == NPM else [0, 1]
+        vts = [0, 1, 5, 6] if sys == NPM else [0, 1]
         if tier != "quick":
-            vts = [0, 1, 2, 3, 4] if sys == NPM else [0, 1, 2, 4]
+            vts = [0, 1, 2, 3, 4, 5, 6] if sys == NPM else [0, 1, 2, 4]
         ks = [2, 3] if tier == "quick" else [2, 3, 4]
+        if tier == "quick" and sys != NPM:
+            ks = [2]
         rts = range(NREQ[sys]) if tier != "quick" else {NPM: [0, 3, 5, 7], MAVEN: [0, 1, 3], PYPI: [0, 2, 4]}[sys]
         for k in ks:
             combos = list(itertools.combinations_with_replacement(vts, k))
             if tier == "quick":
-                combos = combos[::2]
+                combos = combos[::2] if k == 2 else combos[::5]
             for vt in combos:
                 for rt in rts:
                     for latest in ([-1, 0, k - 1] if sys == NPM else [-1]):
